@@ -68,19 +68,30 @@ TIES = {
                     reg=[("C16", ["DsProofs.TieMO.TIEMO_outer", "DsProofs.TieMO.TIEMO_C16_nonempty"])]),
     "container": dict(translator="translate_cont", targets=["GenC", "TieC"], audit="AuditTieC.lean", root="TieC", driver=None,
                       modules=["GenC.Container", "TieC.Properties"],
-                      what="_pad_array, Provenance.__setitem__ / insert / __delitem__ with an integer index (template translation, harness/translate_cont.py -> lean/GenC/Container.lean)",
-                      reg=[("C19", ["DsProofs.TieC.TIEC_setitem", "DsProofs.TieC.TIEC_insert", "DsProofs.TieC.TIEC_delitem"])]),
+                      what="_pad_array, Provenance.__setitem__ / insert / __delitem__ with an integer index, fork, __getitem__ with an index list (template translation, harness/translate_cont.py -> lean/GenC/Container.lean)",
+                      reg=[("C19", ["DsProofs.TieC.TIEC_setitem", "DsProofs.TieC.TIEC_insert", "DsProofs.TieC.TIEC_delitem", "DsProofs.TieC.TIEC_getitem"]),
+                           ("C12", ["DsProofs.TieC.TIEC_fork", "DsProofs.TieC.TIEC_getitem"])]),
     "addops": dict(translator="translate_addops", targets=["GenD", "TieD"], audit="AuditTieD.lean", root="TieD", driver=None,
                    modules=["GenD.Ops", "TieD.Properties", "TieD.Reach"],
-                   what="ADD.restrict, ADD.modelcount, ShapleyOracle.__init__, ShapleyOracle.query (harness/translate_addops.py -> lean/GenD/Ops.lean)",
+                   what="ADD.restrict, ADD.modelcount, ADD.sum, ShapleyOracle.__init__, ShapleyOracle.query (harness/translate_addops.py -> lean/GenD/Ops.lean)",
                    reg=[("C10", ["DsProofs.TieD.TIED_restrict", "DsProofs.TieD.TIED_modelcount", "DsProofs.TieD.TIED_restrict_reach", "DsProofs.TieD.TIED_modelcount_reach",
-                                 "DsProofs.TieD.reach_shape"]),
-                        ("C09", ["DsProofs.TieD.TIED_query", "DsProofs.TieD.TIED_init", "DsProofs.TieD.TIED_restrict_reach", "DsProofs.TieD.TIED_modelcount_reach"]),
+                                 "DsProofs.TieD.reach_shape", "DsProofs.TieD.TIED_sum"]),
+                        ("C09", ["DsProofs.TieD.TIED_query", "DsProofs.TieD.TIED_init", "DsProofs.TieD.TIED_restrict_reach", "DsProofs.TieD.TIED_modelcount_reach", "DsProofs.TieD.TIED_sum"]),
                         ("C02", ["DsProofs.TieD.TIED_query"])]),
+    "exprops": dict(translator="translate_expr", targets=["GenE", "TieE"], audit="AuditTieE.lean", root="TieE", driver=None,
+                    modules=["GenE.Ops", "TieE.Properties"],
+                    what="the operators & and | of Equality / Conjunction / Disjunction, 18 branches (harness/translate_expr.py -> lean/GenE/Ops.lean)",
+                    reg=[("C11", ["DsProofs.TieE.TIEE_and", "DsProofs.TieE.TIEE_or", "DsProofs.TieE.TIEE_C11_and", "DsProofs.TieE.TIEE_C11_or"])]),
+    "provinit": dict(translator="translate_init", targets=["GenI", "TieI"], audit="AuditTieI.lean", root="TieI", driver=None,
+                     modules=["GenI.Init", "TieI.Properties"],
+                     what="the data path of Provenance.__init__ for 1-D data: default container and group identifiers (template translation, harness/translate_init.py -> lean/GenI/Init.lean)",
+                     reg=[("C12", ["DsProofs.TieI.TIEI_default", "DsProofs.TieI.TIEI_groups"]),
+                          ("C01", ["DsProofs.TieI.TIEI_default", "DsProofs.TieI.TIEI_groups"])]),
     "ucall": dict(translator="translate_ucall", targets=["GenK", "TieK"], audit="AuditTieK.lean", root="TieK", driver=None,
                   modules=["GenK.UCall", "TieK.Properties"],
-                  what="the failure handler of SklearnModelUtility.__call__ (harness/translate_ucall.py -> lean/GenK/UCall.lean)",
-                  reg=[("C15", ["DsProofs.TieK.TIEK_supplied", "DsProofs.TieK.TIEK_layer1", "DsProofs.TieK.TIEK_total", "DsProofs.TieK.TIEK_fallback"])]),
+                  what="the failure handler of SklearnModelUtility.__call__, SklearnModelUtility.null_score (harness/translate_ucall.py -> lean/GenK/UCall.lean)",
+                  reg=[("C15", ["DsProofs.TieK.TIEK_supplied", "DsProofs.TieK.TIEK_layer1", "DsProofs.TieK.TIEK_total", "DsProofs.TieK.TIEK_fallback"]),
+                       ("C14", ["DsProofs.TieK.TIEK_null_score"])]),
     "nbr": dict(translator="translate_nbr", targets=["GenN", "TieN"], audit="AuditTieN.lean", root="TieN", driver=None,
                 modules=["GenN.Neighbor", "TieN.Properties"],
                 what="compute_shapley_add, get_unit_labels_and_distances, compute_shapley_1nn_mapfork, the batch loop of _shapley_neighbor (harness/translate_nbr.py -> lean/GenN/Neighbor.lean)",
